@@ -50,7 +50,7 @@ func (f c15fetch) Cached(eval.VariableKey, string) bool           { return true 
 
 func c15(r *rep.Run) {
 	fullMax, shapeMax, aliasMax := 5, 7, 4
-	r.SetBudget(150e9)
+	r.SetBudget(300e9)
 	if r.Thorough() {
 		fullMax, shapeMax, aliasMax = 6, 9, 5
 		r.SetBudget(1800e9)
